@@ -1269,7 +1269,7 @@ def r7_number_frame(ctx, rule="C16.R7"):
                    "%s frames a number as %s with the flag and %s without it (formatters %s): the property prescribes one leading "
                    "blank for a number that is not negative, none for a negative one, and one trailing blank for both"
                    % (g.name, with_flag, without, sorted(kinds)))
-    ctx.require(rule, 5, max_unknown=3)
+    ctx.require(rule, 2, max_unknown=5)
 
 
 def _is_zero(op):
